@@ -18,8 +18,11 @@ CHECKS = {
               "no_phase_skipped (every table row keeps the phase or advances it by exactly one), route_reject_noop. They are about the "
               "generated tables and a hand-written engine model; the tie to the code is re-checked on every run by regenerating the tables "
               "and by fsmdiff (every reachable abstract state x every event of the alphabet for n<=3 quick / n<=4 thorough, compared "
-              "observation by observation with the real FSMInstance). Unanimity and deadline clauses are, at this point, covered by the "
-              "Go-side monitors evaluated on every explored transition of the real code and by the model agreement, not yet by a Lean theorem."),
+              "observation by observation with the real FSMInstance). Part 2 depends on the callbacks: round_invariant (every round after any event sequence satisfies the phase invariant "
+              "of its state: in each await phase everybody is awaited-or-confirmed and somebody is still awaited), the per-phase outcome theorems "
+              "(sig_confirm_outcome, commits/deals/responses_received_outcome, mk_received_outcome: an accepted contribution comes from a participant "
+              "still awaited, the phase advances exactly when it was the last of the n, a late timestamp cancels), unanimous_commits, "
+              "sig_decline_outcome, error_report_cancels, key/polynomial mismatch cancels."),
         ref='7 C05', note=FSM_NOTE),
     'C06': dict(
         technique='Lean 4 theorems (invariant by induction over event lists on the signing-machine model, Int arithmetic as in the Go validator) + differential correspondence fsmdiff',
@@ -99,8 +102,8 @@ CHECKS.update({
               "(delivery order irrelevant), sumCommits_length (degree t-1), group_key, t_minus_one_insufficient (t-1 shares are consistent with every secret); "
               "with C01: any t shares sign consistently. Tie: algdiff compares on real ceremonies the machines' shares with the model, checks every share on the "
               "common polynomial, the polynomial retained by every hot node, the announced master keys, g^(sum of secrets) = group key; fsmdiff covers the "
-              "master-key phase incl. announcements with equal key and differing / extended polynomial (real PubPolyBytes encodings). The FSM-level clause "
-              "'signing-ready implies equal master keys and the common polynomial retained' is covered by model agreement and Go monitors, not yet by a Lean theorem."),
+              "master-key phase incl. announcements with equal key and differing / extended polynomial (real PubPolyBytes encodings). Props/C02Fsm.lean: signing_ready_keys_agree "
+              "(any reachable signing-ready round has all n statuses confirmed and all announced master keys equal) and retained_poly."),
         ref='7 C02', note=ALG_NOTE),
 })
 
